@@ -209,8 +209,27 @@ func cmdCheck(args []string) {
 			}
 		}
 		sort.Strings(names)
+		// functions every obligation of which is discharged: afterwards any undischarged
+		// obligation of such a function (also one that did not exist before) is a violation
+		all, bad := map[string]bool{}, map[string]bool{}
+		for _, o := range res.Obls {
+			if o.Kind == "cover" {
+				continue
+			}
+			all[o.Func] = true
+			if !(o.Status == "discharged" && o.TimeMS < 20000) {
+				bad[o.Func] = true
+			}
+		}
+		var full []string
+		for fn := range all {
+			if !bad[fn] {
+				full = append(full, "!full "+fn)
+			}
+		}
+		sort.Strings(full)
 		os.MkdirAll(filepath.Dir(greenPath), 0o755)
-		os.WriteFile(greenPath, []byte("# obligations discharged on the pinned tree (expected-green set, DESIGN §2.6)\n"+strings.Join(names, "\n")+"\n"), 0o644)
+		os.WriteFile(greenPath, []byte("# obligations discharged on the pinned tree (expected-green set, DESIGN §2.6)\n"+strings.Join(names, "\n")+"\n# functions proved completely\n"+strings.Join(full, "\n")+"\n"), 0o644)
 		green = loadGreen(greenPath)
 	}
 	findings := loadFindings(filepath.Join(root, "KNOWN_FINDINGS.txt"))
@@ -280,6 +299,9 @@ func cmdCheck(args []string) {
 	}
 	greenMissing := map[string]bool{}
 	for gname := range green {
+		if strings.HasPrefix(gname, "!") {
+			continue
+		}
 		if !have0[gname] {
 			if i := strings.Index(gname, "/"); i > 0 {
 				fn := gname[:i]
@@ -341,7 +363,7 @@ func cmdCheck(args []string) {
 			}
 			n := 0
 			for _, o := range g.obls {
-				if !green[o.Name] && !greenMissing[g.fn] {
+				if !green[o.Name] && !greenMissing[g.fn] && !green["!full "+g.fn] {
 					v.undecided = append(v.undecided, o)
 					continue
 				}
